@@ -225,6 +225,9 @@ def sanitize_layout(call):
     """the unlabelled layout is inside the property's precondition ("uniquely labelled") only when the selection
     by label is the identity, i.e. when the common time window keeps every point of that dataset"""
     _, mi_ns = mi_value(call["mi"])
+    bf = call.get("bin_factor", 1)
+    if bf < 1 and (mi_ns * bf < 1000 or (mi_ns * bf) % 1000 != 0):
+        call["bin_factor"] = 1      # a bin width below / off the timedelta resolution is not a meaningful tuning value
     tp, ts = call["p"]["t"], call["s"]["t"]
     if not tp or not ts:
         return
